@@ -30,25 +30,25 @@ type edgeRec struct {
 }
 
 type Frame struct {
-	vc       *VC
-	fn       *ssa.Function
-	id       string
-	parent   *Frame
-	depth    int
-	vals     map[ssa.Value]string
-	tuples   map[ssa.Value][]string
-	addrs    map[ssa.Value]*Addr
-	clos     map[ssa.Value]*closureVal
-	edges    map[*ssa.BasicBlock][]edgeRec // incoming forward edges, recorded by predecessors
-	rets     []retRec
-	panics   []mergeIn
-	defers   []*ssa.Defer
-	loops    map[*ssa.BasicBlock]*loopInfo
-	names    map[string]ssa.Value // source-level local names that denote exactly one SSA value
-	spec     *FuncContract        // contract providing loop specs (top frame)
-	env      *cenv                // contract environment of the top frame
-	callSeq  map[string]int
-	reachEnd map[*ssa.BasicBlock]string
+	vc        *VC
+	fn        *ssa.Function
+	id        string
+	parent    *Frame
+	depth     int
+	vals      map[ssa.Value]string
+	tuples    map[ssa.Value][]string
+	addrs     map[ssa.Value]*Addr
+	clos      map[ssa.Value]*closureVal
+	edges     map[*ssa.BasicBlock][]edgeRec // incoming forward edges, recorded by predecessors
+	rets      []retRec
+	panics    []mergeIn
+	defers    []*ssa.Defer
+	loops     map[*ssa.BasicBlock]*loopInfo
+	names     map[string]ssa.Value // source-level local names that denote exactly one SSA value
+	spec      *FuncContract        // contract providing loop specs (top frame)
+	env       *cenv                // contract environment of the top frame
+	callSeq   map[string]int
+	reachEnd  map[*ssa.BasicBlock]string
 	panicking bool
 }
 
